@@ -19,6 +19,7 @@ const (
 	xCancel = "cancel" // CancelRequest of the first call id at an arbitrary point
 	xStop   = "stop"   // Stop at an arbitrary point (ordering must hold for whatever runs)
 	xNotify = "notify" // server push Notify at an arbitrary point (push-enabled server)
+	xEOF    = "eof"    // the peer hangs up right after its last message (whatever is still queued then)
 )
 
 func c03Seq(tokens []string, conc int, extra string, b Bounds) *Scenario {
@@ -42,8 +43,10 @@ func c03Seq(tokens []string, conc int, extra string, b Bounds) *Scenario {
 						peer.Send([]byte(m.JSON))
 						vs.Note("in", fmt.Sprint(i))
 					}
-					vs.AwaitQuiescence()
-					vs.Note("quiet")
+					if extra != xEOF {
+						vs.AwaitQuiescence()
+						vs.Note("quiet")
+					}
 					peer.Close()
 				})
 				switch extra {
@@ -92,7 +95,7 @@ func c03Seq(tokens []string, conc int, extra string, b Bounds) *Scenario {
 						}
 					}
 				}
-				if extra != xStop && x.Outcome == "ok" {
+				if extra != xStop && extra != xEOF && x.Outcome == "ok" {
 					// non-vacuity: without a racing Stop every handler must have run before the quiet point
 					for _, m := range h.msgs {
 						for _, r := range m.Members {
@@ -185,6 +188,13 @@ func c03Scenarios(tier string) []*Scenario {
 		out = append(out, c03Seq([]string{"c", "n", "c"}, 2, xCancel, Bounds{1, -1, 0}))
 		out = append(out, c03Seq([]string{"n", "c"}, 2, xStop, Bounds{2, -1, 0}))
 		out = append(out, c03Seq([]string{"n", "c"}, 2, xNotify, Bounds{2, -1, 0}))
+		// the server ends with several messages still queued: the retained notifications keep their order
+		for _, t := range [][]string{{"n", "[n]", "[n]"}, {"[n]", "c", "[n]"}, {"n", "n", "n"}, {"[nn]", "[n]", "n"}} {
+			if len(t[0]) < 4 {
+				out = append(out, c03Seq(t, 2, xStop, Bounds{1, -1, 0}))
+			}
+			out = append(out, c03Seq(t, 2, xEOF, Bounds{1, -1, 0}))
+		}
 		out = append(out, c03Gate("c", 2, Bounds{2, -1, 0}), c03Gate("n", 2, Bounds{2, -1, 0}), c03Gate("[cn]", 3, Bounds{2, -1, 0}))
 		return out
 	}
@@ -196,6 +206,9 @@ func c03Scenarios(tier string) []*Scenario {
 		out = append(out, c03Seq(t, 2, xNone, b))
 		out = append(out, c03Seq(t, 3, xNone, Bounds{2, -1, 0}))
 		out = append(out, c03Seq(t, 1, xNone, Bounds{2, -1, 0}))
+	}
+	for _, t := range [][]string{{"n", "[n]", "[n]"}, {"[n]", "c", "[n]"}, {"n", "n", "n"}, {"[nn]", "[n]", "n"}, {"[n]", "[n]", "[n]"}, {"n", "[nc]", "[n]"}} {
+		out = append(out, c03Seq(t, 2, xStop, Bounds{2, -1, 0}), c03Seq(t, 2, xEOF, Bounds{2, -1, 0}), c03Seq(t, 1, xStop, Bounds{2, -1, 0}))
 	}
 	for _, x := range []string{xCancel, xStop, xNotify} {
 		out = append(out, c03Seq([]string{"n", "c"}, 2, x, Bounds{3, -1, 0}))
